@@ -223,6 +223,9 @@ def run_shard(ctx):
         extra, definitions, f08 = [], {}, False
         if idx % 3 == 0:
             schema, _tag = gs.any_schema(rng, gs.Opts(lookalike_literals=False))
+            if isinstance(schema, dict) and idx % 12 == 3 and "$ref" not in json.dumps(schema) and \
+                    gs.add_vacuous(rng, schema, count=rng.randint(1, 3)):
+                ctx.count("trees.parsed_with_vacuous_keywords")
             if not isinstance(schema, dict) or not refmodel.metaschema_valid(schema):
                 continue
             try:
